@@ -348,6 +348,7 @@ func (m *Machine) assert(id string, c value, pos string) {
 		ob.Result = r.String()
 		if r == Sat {
 			ob.Model = md
+			ob.Msg = m.unit.lastPanic
 		}
 		if len(e.Samples) < 6 {
 			e.Samples = append(e.Samples, fmt.Sprintf("%s @%s under pc of %d constraints: not(%s) is %s", id, pos, e.pos, trunc(c.String(), 160), r))
@@ -1067,6 +1068,7 @@ type merger struct {
 	m           *Machine
 	memo        map[string]value
 	entrySerial int
+	trustFresh  bool               // pointers are known to be freshly allocated per alternative
 	overlays    []map[*value]value // per surviving path: final values of written cells
 }
 
@@ -1111,7 +1113,7 @@ func (g *merger) merge(guards []*Term, vals []value) value {
 		return vals[0]
 	}
 	switch v0 := vals[0].(type) {
-	case int64, bool, *Term, string, *SymStr, float64, *FRat, *FTab:
+	case int64, bool, *Term, string, *SymStr, float64, *FRat, *FTab, FUnknown:
 		r := vals[len(vals)-1]
 		for i := len(vals) - 2; i >= 0; i-- {
 			r = m.iteVal(guards[i], vals[i], r)
@@ -1159,7 +1161,7 @@ func (g *merger) merge(guards []*Term, vals []value) value {
 			if !ok || p == nil {
 				panic(mergeFail{"nil/non-nil pointer mix"})
 			}
-			if sr, fresh := m.fresh[p]; !fresh || sr <= g.entrySerial {
+			if sr, fresh := m.fresh[p]; !g.trustFresh && (!fresh || sr <= g.entrySerial) {
 				panic(mergeFail{"distinct pre-existing pointers"})
 			}
 			key += fmt.Sprintf("%p,", p)
